@@ -68,7 +68,7 @@ Definition posix_class (name : bytes) (ch : N) (cf : bool) : option bool :=
   else if beq name [112;114;105;110;116] then Some ((32 <=? ch) && (ch <? 127))        (* print *)
   else if beq name [112;117;110;99;116] then Some (is_punct ch)                        (* punct *)
   else if beq name [115;112;97;99;101] then
-    Some ((ch =? 32) || (ch =? 9) || (ch =? 10) || (ch =? 11) || (ch =? 12) || (ch =? 13))  (* space *)
+    Some ((ch =? 32) || (ch =? 9) || (ch =? 10) || (ch =? 13))  (* space: sane-ctype's isspace, no VT / FF *)
   else if beq name [117;112;112;101;114] then Some (is_upper ch || (cf && is_lower ch)) (* upper *)
   else if beq name [120;100;105;103;105;116] then
     Some (is_digit ch || ((97 <=? ch) && (ch <=? 102)) || ((65 <=? ch) && (ch <=? 70))) (* xdigit *)
